@@ -216,7 +216,10 @@ class ControlVariates:
         sigma_x = covariance[0:-1, 0:-1]
         sigma_xy = covariance[0:-1, -1]
         try:
-            if np.amin(np.absolute(sigma_x)) < 1e-12:
+            # a control whose variance vanishes relative to its own size cannot be regressed on
+            # (relative test: the decision must not depend on the notional / unit of the control)
+            second_moments = np.mean(np.square(np.array(x, ndmin=2)), axis=0)
+            if np.any(np.diag(sigma_x) <= 1e-24 * second_moments):
                 b_star = np.zeros_like(sigma_xy)
             else:
                 inv_sigma_x = np.linalg.inv(sigma_x)
